@@ -161,6 +161,9 @@ class P(Prop):
             r = rng.random()
             if r < 0.7:
                 out.append(dict(op="arbitrary", ty=ty, bytes=bs, meta={"class": "arbitrary/" + style}))
+                if rng.random() < 0.5:
+                    # the trait's second entry point on the same bytes (Unstructured::arbitrary_take_rest, fuzz targets)
+                    out.append(dict(op="arbitrary_rest", ty=ty, bytes=bs, meta={"class": "arbitrary_take_rest/" + style}))
             elif r < 0.8:
                 out.append(dict(op="arb_vec_f64", bytes=bs, meta={"class": "vec/" + style}))
             else:
@@ -205,7 +208,8 @@ class P(Prop):
         return out
 
     def coq_term(self, case, h):
-        if case["op"] == "arbitrary":
+        if case["op"] in ("arbitrary", "arbitrary_rest"):
+            # arbitrary_take_rest is not overridden: the trait's default forwards to arbitrary, same model
             return "run_arbitrary %d %s" % (G.arity(case["ty"]), C.zlist(case["bytes"]))
         if case["op"] == "arb_vec_f64":
             return "run_arb_vec %s" % C.zlist(case["bytes"])
